@@ -25,6 +25,13 @@
 #include "upipe-modules/upipe_genaux.h"
 #include "upipe-modules/upipe_buffer.h"
 #include "upipe-modules/upipe_rate_limit.h"
+#include "upipe-modules/upipe_burst.h"
+#include "upipe-modules/upipe_convert_to_block.h"
+#include "upipe-modules/upipe_discard_blocking.h"
+#include "upipe-modules/upipe_dump.h"
+#include "upipe-modules/upipe_noclock.h"
+#include "upipe-modules/upipe_nodemux.h"
+#include "upipe-modules/upipe_setrap.h"
 #include "upipe-ts/upipe_ts_sync.h"
 #include "upipe-ts/upipe_ts_check.h"
 #include "upipe-ts/upipe_ts_align.h"
@@ -102,6 +109,10 @@ struct side {
     bool up_registered;
     int up_provided;
     bool probe_teardown;    /* dup row: on the first source_end of a subpipe the application releases every subpipe */
+    struct upump_mgr *src_mgr; /* the upstream's own loop: one idler pump that feeds the pipe (non-NULL upump_p) */
+    struct upump *src_pump;
+    bool in_pump;           /* currently inside the source pump's callback */
+    bool td_last;           /* teardown dispatches the last ready pump instead of the first */
     struct ubuf *held[MAXSEQ]; /* references kept on shared segments */
     int nheld;
 };
@@ -441,6 +452,14 @@ ALLOC_VOID(ts_sync, upipe_ts_sync_mgr_alloc)
 ALLOC_VOID(ts_check, upipe_ts_check_mgr_alloc)
 ALLOC_VOID(ts_align, upipe_ts_align_mgr_alloc)
 ALLOC_VOID(ts_psi_split, upipe_ts_psi_split_mgr_alloc)
+ALLOC_VOID(burst, upipe_burst_mgr_alloc)
+ALLOC_VOID(tblk, upipe_tblk_mgr_alloc)
+ALLOC_VOID(disblo, upipe_disblo_mgr_alloc)
+ALLOC_VOID(dump, upipe_dump_mgr_alloc)
+ALLOC_VOID(noclock, upipe_noclock_mgr_alloc)
+ALLOC_VOID(nodemux, upipe_nodemux_mgr_alloc)
+ALLOC_VOID(setrap, upipe_setrap_mgr_alloc)
+
 ALLOC_VOID(ts_split, upipe_ts_split_mgr_alloc)
 
 /* output subpipes of the TS splitters are allocated with their own flow definition (filter / PID) */
@@ -669,6 +688,14 @@ static const struct row rows[] = {
     {.name = "ts_check", .kind = K_RECHUNK, .alloc = alloc_ts_check, .bad_def = "pic.", .out_def_prefix = "block.mpegts.",
      .nopts = 1, .opt = {{"output_size", 3, tsz_set, osz_get, tsz_vs, "188"}}},
     {.name = "ts_align", .kind = K_RECHUNK, .alloc = alloc_ts_align, .bad_def = "pic.", .out_def_prefix = "block.mpegts."},
+    /* further module pipes, generic oracles only (accounting, life cycle, flow negotiation, generic getters) */
+    {.name = "burst", .kind = K_RECHUNK, .alloc = alloc_burst, .bad_def = "pic.", .uses_pumps = true},
+    {.name = "convert_to_block", .kind = K_RECHUNK, .alloc = alloc_tblk},
+    {.name = "discard_blocking", .kind = K_RECHUNK, .alloc = alloc_disblo, .uses_pumps = true},
+    {.name = "dump", .kind = K_RECHUNK, .alloc = alloc_dump, .bad_def = "pic."},
+    {.name = "noclock", .kind = K_RECHUNK, .alloc = alloc_noclock},
+    {.name = "nodemux", .kind = K_RECHUNK, .alloc = alloc_nodemux},
+    {.name = "setrap", .kind = K_RECHUNK, .alloc = alloc_setrap},
     {.name = "ts_psi_split", .kind = K_RECHUNK, .alloc = alloc_ts_psi_split, .bad_def = "block.", .in_def = "block.mpegtspsi.", .out_def_prefix = "block.mpegtspsi.",
      .has_subs = true, .sub_alloc = sub_psi_split},
     {.name = "ts_split", .kind = K_RECHUNK, .alloc = alloc_ts_split, .bad_def = "block.", .in_def = "block.mpegts.", .out_def_prefix = "block.mpegts.",
@@ -693,6 +720,8 @@ enum {
     OP_PROBE_DROP,
     OP_UPREQ,          /* register / withdraw an upstream uref_mgr request whose answer makes the upstream push a buffer */
     OP_PROBE_TEARDOWN, /* dup: from now on the application releases every subpipe on the first source_end */
+    OP_IN_PUMP,        /* the upstream's pump fires: a buffer is input with a non-NULL upump_p (the pipe may block that pump) */
+    OP_TD_ORDER,       /* from now on loops dispatch the last ready pump first (affects the teardown as well) */
     OP_RELEASE,
     NOPS
 };
@@ -733,6 +762,8 @@ static void opstr(int op, char *b, size_t n)
     else if (op == OP_PROBE_DROP) snprintf(b, n, "toggle(probe drops)");
     else if (op == OP_UPREQ) snprintf(b, n, "toggle(upstream request, pushes a buffer when answered)");
     else if (op == OP_PROBE_TEARDOWN) snprintf(b, n, "probe releases all subpipes on source_end");
+    else if (op == OP_IN_PUMP) snprintf(b, n, "source pump fires: input(size=2) with upump_p");
+    else if (op == OP_TD_ORDER) snprintf(b, n, "loops dispatch the last ready pump first");
     else if (op == OP_RELEASE) snprintf(b, n, "release");
     else snprintf(b, n, "op%d", op);
 }
@@ -781,6 +812,17 @@ static int up_provide(struct urequest *urequest, va_list args)
     return UBASE_ERR_NONE;
 }
 
+static void src_pump_cb(struct upump *upump)
+{
+    struct side *s = upump_get_opaque(upump, struct side *);
+    struct st *st = g_cur_st;
+    if (s->pipe == NULL || st->flow == 0)
+        return;
+    s->in_pump = true;
+    do_input(st, s, 0, s == &st->a, false);
+    s->in_pump = false;
+}
+
 static void side_init(struct st *st, struct side *s, bool with_getters)
 {
     struct px_cfg cfg = {.pool = g_pool, .prepend = g_pool ? 4 : 0, .append = 0, .align = 0};
@@ -796,6 +838,10 @@ static void side_init(struct st *st, struct side *s, bool with_getters)
     }
     urequest_init_uref_mgr(&s->up_req, up_provide, NULL);
     urequest_set_opaque(&s->up_req, s);
+    s->src_mgr = vmock_mgr_alloc(g_pool, g_pool);
+    s->src_pump = upump_alloc_idler(s->src_mgr, src_pump_cb, s, NULL);
+    assert(s->src_mgr && s->src_pump);
+    upump_start(s->src_pump);
     s->pipe = g_row->alloc(s);
     assert(s->pipe);
     if (s->qsrc) /* the far end of the queue delivers into S0 */
@@ -902,6 +948,8 @@ static int dispatch(struct side *s, int which)
     int n = px_ready_pumps(&s->fx, r, 8);
     if (which >= n)
         return -1;
+    if (s->td_last)
+        which = n - 1 - which;
     if (r[which]->event == UPUMP_TYPE_TIMER)
         s->fx.clock.now += r[which]->after ? r[which]->after : 1;
     vmock_dispatch(r[which]);
@@ -977,7 +1025,7 @@ static void do_input(struct st *st, struct side *s, int sh, bool primary, bool r
                 for (int k = 0; k < 4; k++)
                     x->mustnot[k] = true;
         }
-        upipe_input(s->pipe, u, NULL);
+        upipe_input(s->pipe, u, s->in_pump ? &s->src_pump : NULL);
     }
 }
 
@@ -1033,6 +1081,11 @@ static int apply_side(struct st *st, struct side *s, int op, bool primary)
         }
     } else if (op == OP_PROBE_TEARDOWN) {
         s->probe_teardown = true;
+    } else if (op == OP_IN_PUMP) {
+        if (vmock_pump_from_upump(s->src_pump)->active)
+            vmock_dispatch(vmock_pump_from_upump(s->src_pump));
+    } else if (op == OP_TD_ORDER) {
+        s->td_last = true;
     } else if (op == OP_RELEASE) {
         if (s->up_registered) { /* a requester withdraws its request before letting go of the pipe */
             upipe_unregister_request(s->pipe, &s->up_req);
@@ -1096,6 +1149,12 @@ static bool op_enabled(struct st *st, int op)
         return r->kind == K_ONE2ONE || r->kind == K_DUP || r->kind == K_HOLD;
     if (op == OP_PROBE_TEARDOWN)
         return r->has_subs && !s->probe_teardown;
+    if (op == OP_IN_PUMP)
+        return r->kind != K_SINK && st->flow != 0 && st->nseq < MAXSEQ - 1 && vmock_pump_from_upump(s->src_pump)->active &&
+               !(!strncmp(r->name, "skip", 4) && st->optmodel[0] >= 0 && (int)skip_vals[st->optmodel[0]] > shapes[0].size) &&
+               !(!strcmp(r->name, "genaux") && st->optmodel[0] == 2);
+    if (op == OP_TD_ORDER)
+        return r->uses_pumps && !s->td_last;
     return true;
 }
 
@@ -1137,7 +1196,7 @@ static int apply(void *vst, int op, bool check)
     st->nops++;
 
     /* model update */
-    bool is_input = op >= OP_IN0 && op < OP_IN0 + NSHAPES;
+    bool is_input = (op >= OP_IN0 && op < OP_IN0 + NSHAPES) || op == OP_IN_PUMP;
     if ((op == OP_FLOW1 || op == OP_FLOW2) && ubase_check(ea)) {
         int id = op == OP_FLOW1 ? 1 : 2;
         if (id != st->flow)
@@ -1474,6 +1533,17 @@ static int final_check(void *vst)
     /* ---- teardown; C01 end state ---- */
     for (int k = 0; k < 2; k++)
         if (sides[k]) {
+            /* the upstream goes away last: its pump must have been released by every pipe that blocked it */
+            struct vmock_mgr *sm = vmock_mgr_from_upump_mgr(sides[k]->src_mgr);
+            bool blocked = !vmock_pump_from_upump(sides[k]->src_pump)->active;
+            if (blocked && (g_oracle & O_C01))
+                FAIL(st, "end:source-pump-left-blocked", "the upstream's pump is still blocked after every pipe was released and the loop ran until idle");
+            upump_free(sides[k]->src_pump);
+            if ((sm->npumps || uatomic_load(&sm->urefcount.refcount) != 1) && (g_oracle & O_C01))
+                FAIL(st, "end:source-loop-leak", "the upstream's loop manager has %d pump(s) and %u reference(s) left", sm->npumps,
+                     (unsigned)uatomic_load(&sm->urefcount.refcount));
+            upump_mgr_release(sides[k]->src_mgr);
+            free(sm);
             for (int i = 0; i < sides[k]->nheld; i++)
                 ubuf_free(sides[k]->held[i]);
             sides[k]->nheld = 0;
